@@ -116,3 +116,20 @@ check('C16', 'E1', 'model_checking',
       'session writes capped per (transport, namespace); connection '
       'generations capped at 2 in the canonical state.',
       'DESIGN.md 6/C16')
+
+check('C11', 'E1', 'fault_enumeration',
+      'explicit-state BFS over client histories x ending causes x injected '
+      'handler faults, with a generic residue oracle',
+      'Every client history up to depth 5 (quick) / 7 (thorough) over '
+      '{connect accept/refuse/duplicate, event, enter_room, emit with '
+      'unanswered callback, binary header / attachment, 6 malformed frames, '
+      'stale-sid API calls, wrong-namespace calls} is ended by every cause '
+      '(DISCONNECT, server.disconnect, transport error, engine.io CLOSE) at '
+      'every position, with up to 1 (2) "the next application handler '
+      'invocation raises" faults. After every step a generic walk of the '
+      'server and manager __dict__s must not mention any ended transport or '
+      'gone sid; with all transports gone it must equal the fresh server. A '
+      'two-point reachable-object count decides growth.',
+      'engine.io internals excluded (dependency); depth-bounded (no '
+      'closure); 2 transports, the second with a reduced alphabet.',
+      'DESIGN.md 6/C11')
